@@ -46,7 +46,7 @@ def run(ctx):
     # one trace file, flushed per event: if the process dies inside neptune, vlib appends a `crash`
     # event to the history that led to it and the spec rejects it
     ctx.harness(binary, ["-plans", pdir, "-out", tfile, "-seed", ctx.seed, "-rand", ctx.q(48, 800),
-                         "-nstress", ctx.q(16, 300), "-nlife", ctx.q(112, 1120), "-nmicro", ctx.q(120, 3000),
+                         "-nstress", ctx.q(16, 300), "-nlife", ctx.q(112, 1120), "-nmicro", ctx.q(120, 2000),
                          "-nlong", ctx.q(1, 4), "-nwide", ctx.q(4, 10)],
                 timeout=2400, traces=[tfile])
     alltr = ctx.load_traces(tfile)
